@@ -61,3 +61,66 @@ Section TraceSupport.
       + now apply attached_in_closure.
   Qed.
 End TraceSupport.
+
+(* ------------------------------------------------------------------ the same over a setoid (traces live in a ring with its own equality) *)
+Section TraceSupportSetoid.
+  Variable A : Type.
+  Variables (zero : A) (add mul : A -> A -> A) (eqA : A -> A -> Prop).
+  Hypothesis eqA_refl : forall x, eqA x x.
+  Hypothesis eqA_sym : forall x y, eqA x y -> eqA y x.
+  Hypothesis eqA_trans : forall x y z, eqA x y -> eqA y z -> eqA x z.
+  Hypothesis add_proper : forall a a' b b', eqA a a' -> eqA b b' -> eqA (add a b) (add a' b').
+  Hypothesis mul_zero_r : forall x z, eqA z zero -> eqA (mul x z) zero.
+
+  Variables dim nd ed fd id nv ne nf nt : nat.
+  Variables t t2e t2f : list (list nat).
+  Notation D := (dofs_init dim nd ed fd id 0 nv ne nf nt t t2e t2f).
+  Hypothesis Hwf : wf dim fd nv ne nf nt t t2e t2f.
+  Variable dofnames : list nat.
+  Variable offs : offsets.
+  Variables facets f2e : list (list nat).
+  Variable dim3 : bool.
+  Variable F : list nat.
+  Hypothesis BF : forall f, In f F -> f < nf.
+  Hypothesis Bv : forall f v, In f F -> In v (nth f facets []) -> v < nv.
+  Hypothesis Be : forall row f, In row f2e -> In f F -> nth f row 0 < ne.
+  Variable e : nat.
+  Hypothesis He : e < nt.
+  Variable tr : nat -> A.
+  Variable att : kind -> nat -> bool.
+  Hypothesis trace_of_unattached_is_zero : forall r, r < length (D_element D) ->
+    eqA (tr r) zero \/ exists kd s' k, s' < nslots t t2e t2f kd /\ k < cnt dim nd ed fd id kd /\
+                                       r = rowpos dim nd ed fd t t2e t2f kd s' k /\ att kd s' = true.
+  Hypothesis attached_in_closure : forall kd s', att kd s' = true -> s' < nslots t t2e t2f kd ->
+    facet_selected facets f2e dim3 F kd (slot_ent t t2e t2f kd s' e).
+
+  Definition trace_s (w : nat -> A) : A :=
+    fold_right add zero (map (fun r => mul (w (nth e (nth r (D_element D) []) 0)) (tr r)) (seq 0 (length (D_element D)))).
+
+  Theorem trace_support_setoid (w w' : nat -> A) :
+    (forall d, In d (flatten D (get_facet_dofs D dofnames offs nd ed fd facets f2e dim3 F [])) -> w d = w' d) ->
+    eqA (trace_s w) (trace_s w').
+  Proof.
+    intros Hagree. unfold trace_s.
+    assert (G : forall l, (forall r, In r l -> r < length (D_element D)) ->
+              eqA (fold_right add zero (map (fun r => mul (w (nth e (nth r (D_element D) []) 0)) (tr r)) l))
+                  (fold_right add zero (map (fun r => mul (w' (nth e (nth r (D_element D) []) 0)) (tr r)) l))).
+    { induction l as [|r l IH]; intros Hl; cbn [map fold_right]; [apply eqA_refl|]. apply add_proper; [|apply IH; intros; apply Hl; now right].
+      destruct Hwf as [Hfd [Ht [Ht2e Ht2f]]].
+      destruct (trace_of_unattached_is_zero r (Hl r (or_introl eq_refl))) as [Hz | [kd [s' [k [Hs [Hk [-> Hatt]]]]]]].
+      - eapply eqA_trans; [apply mul_zero_r, Hz | apply eqA_sym, mul_zero_r, Hz].
+      - assert (Ew : w (nth e (nth (rowpos dim nd ed fd t t2e t2f kd s' k) (D_element D) []) 0)
+                     = w' (nth e (nth (rowpos dim nd ed fd t t2e t2f kd s' k) (D_element D) []) 0)).
+        { apply Hagree.
+          rewrite (element_entry dim nd ed fd id 0 nv ne nf nt t t2e t2f Hfd Ht Ht2e Ht2f kd s' k e Hs Hk He).
+          apply (facet_query_exact dim nd ed fd id 0 nv ne nf nt t t2e t2f Hfd dofnames offs facets f2e dim3 F [] _ BF Bv Be).
+          exists kd, (slot_ent t t2e t2f kd s' e), k. split; [|split; [reflexivity|split]].
+          + now apply slot_valid.
+          + unfold row_selected. destruct offs as [[of_ oe] oi]. split.
+            * now rewrite (blk_rows dim nd ed fd id 0 nv ne nf nt t t2e t2f Hfd).
+            * simpl. split; [intros [] | discriminate].
+          + now apply attached_in_closure. }
+        cbv beta in *. rewrite Ew. apply eqA_refl. }
+    apply G. intros r Hr. apply in_seq in Hr. lia.
+  Qed.
+End TraceSupportSetoid.
